@@ -28,6 +28,9 @@ def initial_tables():
         columns=list(ROLES))
     t["labelled-frame"] = lambda: dmod.DataModel(
         pd.DataFrame({"stmt_id": [7, 8, 7], "operation": ["p", "q", "p"], "name": ["u", None, "u"]}, index=[10, 20, 30]))
+    # columns of one pure dtype (no missing value, no string): int with zeros, bool — the per-column index sees numpy scalars there
+    t["pure-int-bool"] = lambda: dmod.DataModel(
+        [[0, "a", False], [3, "b", True], [0, "a", False], [4, "block_start", True], [4, "block_end", False]], columns=list(ROLES))
     return t
 
 
@@ -39,9 +42,10 @@ MUTATORS = [
     ("remove", 0, 2), ("remove", 2, "x"), ("remove", 1, "a"),
     ("rename", 2), ("reset",), ("slice", 1, 0), ("slice", 0, 1),
     ("swapnames", 1, 2),
+    ("append", "newcol"), ("into-empty",), ("elem", "first", 0, 0), ("elem", "last", 2, False),
 ]
 MUTATORS_SMALL = [MUTATORS[i] for i in (0, 2, 3, 5, 8, 9, 11, 14, 15, 16)]
-MUTATORS_TINY = [MUTATORS[i] for i in (0, 3, 5, 9, 11, 14, 16, 18)]
+MUTATORS_TINY = [MUTATORS[i] for i in (0, 5, 9, 11, 14, 16, 18, 19, 20)]
 QSUB = ["none", "indexed", "rows"]
 
 
@@ -71,7 +75,12 @@ def apply(dm, op, colnames):
             dm.modify_column(colnames[op[1]], list(range(10, 10 + n)))
     elif kind == "append":
         rec = {colnames[0]: 2, colnames[1]: "z", colnames[2]: "x"}
-        if op[1] == "dm":
+        if op[1] == "newcol":
+            # the appended rows bring a column the table does not have yet (the old rows get missing values there)
+            extra = "extra" if "extra" not in dm._data.columns else "extra2"
+            rec[extra] = "e"
+            dm.append_data_model(dmod.DataModel([rec], columns=list(rec)))
+        elif op[1] == "dm":
             dm.append_data_model(dmod.DataModel([rec], columns=list(colnames)))
         else:
             dm.append_data_model(pd.DataFrame([rec], columns=list(colnames)))
@@ -86,6 +95,11 @@ def apply(dm, op, colnames):
         a, b = colnames[op[1]], colnames[op[2]]
         dm.rename_column({a: b, b: a})          # one call hands each name to the other column
         colnames[op[1]], colnames[op[2]] = b, a
+    elif kind == "into-empty":
+        # accumulate into a table that was constructed empty
+        acc = dmod.DataModel()
+        acc.append_data_model(dm)
+        dm = acc
     elif kind == "reset":
         dm.reset_index()
     elif kind == "slice":
@@ -221,7 +235,7 @@ def main():
     n_seq = 0
     for muts, subs, depth in plans:
         steps = [(m, q) for m in muts for q in subs]
-        for tn in tables:
+        for tn in (tables if (thorough or depth < 3) else ["gir-like", "pure-int-bool"]):
             allseq = []
             for d in range(1, depth + 1):
                 for seq in itertools.product(steps, repeat=d):
@@ -277,7 +291,7 @@ def main():
 
 
 def initial_tables_names():
-    return ["gir-like", "dicts-with-missing", "labelled-frame"]
+    return ["gir-like", "dicts-with-missing", "labelled-frame", "pure-int-bool"]
 
 
 if __name__ == "__main__":
